@@ -115,7 +115,7 @@ structure InvR (c : Cfg) (h : List SOp) (s : Storage) (r : Nat) : Prop where
 /-! ### normal forms of `buildMetrics` -/
 
 theorem fastPath_iff (n : Nat) (temp : Temporality) : fastPath n temp = true ↔ n = 1 ∧ temp = .delta := by
-  simp [fastPath]
+  simp [fastPath_def]
 
 /-- the stash after `buildMetrics` has (conditionally) pushed `δ` for every collector -/
 def stashed (n : Nat) (u : Nat → Option (List DMap)) (δ : DMap) : Nat → Option (List DMap) :=
@@ -205,7 +205,7 @@ theorem fastPath_same (c : Cfg) {r r' : Nat} (hr : r < c.n) (hr' : r' < c.n) :
   · have : r = r' := by omega
     rw [this]
   · have : (c.n == 1) = false := by simp [h1]
-    simp [fastPath, this]
+    simp [fastPath_def, this]
 
 /-! ### the invariant holds initially and is preserved by every operation -/
 
@@ -614,7 +614,7 @@ theorem collect_values (c : Cfg) (h : List SOp) (r ts : Nat) (hr : r < c.n) (a :
       cases ht : c.temp r with
       | delta => simp [recSince_zero_of_not_reports c h r a hrep]
       | cumulative =>
-        have hf : fastPath c.n (c.temp r) = false := by simp [fastPath, ht]
+        have hf : fastPath c.n (c.temp r) = false := by simp [fastPath_def, ht]
         have : anyAdd h = false := by simpa [reports, hf] using hrep
         simp [recorded_zero_of_anyAdd h a this]
   | true =>
@@ -1300,7 +1300,7 @@ theorem sched_no_lost_update (c : Cfg) (sch : List Step) (r ts : Nat) (hr : r < 
     valAt (pointsOf (collect c (crunRev c sch).st r ts).2) a + flightSum (crunRev c sch).inflight a = recordedS sch a := by
   have hi := sinv_run c r hr sch
   have h := hi.cons a
-  have hf : fastPath c.n (c.temp r) = false := by simp [fastPath, hc]
+  have hf : fastPath c.n (c.temp r) = false := by simp [fastPath_def, hc]
   rw [hc] at h; simp only [← hc, hf, Bool.false_eq_true, if_false] at h
   rw [collect_eq c _ r ts hr]
   have hsum := stashed_sum c.n (crunRev c sch).st.temporal.unreported (crunRev c sch).st.cur r hr a
@@ -1338,6 +1338,15 @@ example : let c : Cfg := ⟨[.delta, .cumulative]⟩
     (0 < c.n ∧ c.temp 0 = .delta) ∧ (1 < c.n ∧ c.temp 1 = .cumulative) := by decide
 example : NoCollectBy 0 [.add 1 2, .collect 1 5] := by
   intro op h; simp at h; rcases h with rfl | rfl <;> rfl
+
+/-! ## What the theorems assume about the source text (re-extracted on every run into `Gen/MetricsTemporal.lean`) -/
+
+/-- the fast path of `buildMetrics` is `collectors.size() == 1 && … == kDelta` -/
+theorem gen_fast_path : Gen.temporalFastPathCollectors = 1 ∧ Gen.temporalFastPathIsDelta = true := by decide
+
+/-- `SumAggregation::Merge` adds, `Diff` subtracts `this` from `next` (long and double) -/
+theorem gen_sum_signs : Gen.longSumMergeSign = 1 ∧ Gen.longSumDiffSign = -1 ∧
+    Gen.doubleSumMergeSign = 1 ∧ Gen.doubleSumDiffSign = -1 := by decide
 
 /-! ## The meter: every handle and every view stream counts -/
 
